@@ -11,6 +11,7 @@ in : `resolve <bound>*`         resolve_bounds_map for one type variable (de-dup
                                  row e, column a of the 0/1 matrix = `typed e` accepts `typed a`
      `tvca (B <ty>?) (C <ty>*) <ty>`    TypeVarValue(bound, constraints).can_assign(other)
      `tvcba (B <ty>?) (C <ty>*) <ty>`   TypeVarValue(bound, constraints).can_be_assigned(left)
+     `tvtv (B <ty>?) (C <ty>*) (B <ty>?) (C <ty>*) <0|1>`   … against another TypeVarValue (1 = an equal one)
 out: `res=<ok <src> <ty> | errBounds | errOptions> n=<#bounds after de-dup> spec=<0|1> sat=<l><u><c>|- D=<classes|->`
      `D=<classes|->`  |  `<bound>* | ERR`  |  `bad-op`
 -/
@@ -109,6 +110,10 @@ def handle (line : String) : String :=
   | some [.atom "tvca", b, c, o] =>
     match parseTV b c, o.toTy with
     | some tv, some o => showBounds? (tv.accepts (leCa liveTable) joinU o)
+    | _, _ => "bad-op"
+  | some [.atom "tvtv", b, c, b', c', .atom same] =>
+    match parseTV b c, parseTV b' c' with
+    | some tv, some other => showBounds? (tv.withTV (leCa liveTable) joinU other (same == "1"))
     | _, _ => "bad-op"
   | some [.atom "tvcba", b, c, o] =>
     match parseTV b c, o.toTy with
